@@ -83,3 +83,71 @@ def install(reg):
                 "#L{unit.measurement.start.line}-L{unit.measurement.end.line}) | {unit.measurement.value} | {unit.file} |'"})},
         props=("C02", "C18"),
     )
+
+
+_P = 'call_result("Report.quality_profile")'
+_T = f"({_P}[0] + {_P}[1] + {_P}[2] + {_P}[3])"
+_Q = 'call_result("Report.quality_profile_percentage")'
+
+
+def install_c19(reg):
+    reg.contract(
+        R + "quality_profile", params={}, returns="list[int]", pure=True, assumed=True,
+        ensures={"four": "len(result) == 4",
+                 "non_negative": "result[0] >= 0 and result[1] >= 0 and result[2] >= 0 and result[3] >= 0",
+                 "below_2_40": "result[0] + result[1] + result[2] + result[3] < 2 ** 40"},
+        note="summary: a quality profile is four non-negative integers (the statement's domain); totals stay below 2^40 lines",
+    )
+    reg.contract(
+        R + "quality_profile_percentage", params={}, returns="tuple[int,int,int,int]", pure=True,
+        ensures={
+            "empty_codebase": f"implies({_T} == 0, result[0] + result[1] == 100 and result[2] == 0 and result[3] == 0)",
+            "range_easy_verbose": "0 <= result[0] + result[1] <= 100",
+            "range_hard": "0 <= result[2] <= 100",
+            "range_unmaintainable": "0 <= result[3] <= 100",
+            "sum_100": "result[0] + result[1] + result[2] + result[3] == 100",
+            "hard_within_2_points": f"implies({_T} > 0, -2 < 100 * ({_P}[2] / {_T}) - result[2] < 2)",
+            "unm_within_2_points": f"implies({_T} > 0, -2 < 100 * ({_P}[3] / {_T}) - result[3] < 2)",
+            "ev_within_2_points": f"implies({_T} > 0, -2 < 100 * (({_P}[0] + {_P}[1]) / {_T}) - (result[0] + result[1]) < 2)",
+            # "more than one thousandth of a percent": share > 1/100000, in integers
+            "hard_never_shown_as_0": f"implies({_T} > 0 and 100000 * {_P}[2] > {_T}, result[2] >= 1)",
+            "unm_never_shown_as_0": f"implies({_T} > 0 and 100000 * {_P}[3] > {_T}, result[3] >= 1)",
+        },
+        hints={
+            # stepping stones for ev_within_2_points: shares add up to one; hard+unm is within two points
+            "shares_add_up": f"implies({_T} > 0, ({_P}[0] + {_P}[1]) / {_T} + ({_P}[2] + {_P}[3]) / {_T} == 1)",
+            "split_hard_unm": f"implies({_T} > 0, ({_P}[2] + {_P}[3]) / {_T} == {_P}[2] / {_T} + {_P}[3] / {_T})",
+            "hard_plus_unm_within_2_points": f"implies({_T} > 0, -2 < 100 * (({_P}[2] + {_P}[3]) / {_T}) - (result[2] + result[3]) < 2)",
+        },
+        props=("C19",),
+    )
+    verdict = {
+        "stop_iff_unmaintainable": "implies({Q}[3] > 0, out_arg(-1, 0) == f':stop_sign: {{{Q}[3]}}% of {what} are unmaintainable, refactoring necessary.')",
+        "warning_iff_hard_over_20": "implies({Q}[3] <= 0 and {Q}[2] > 20, out_arg(-1, 0) == f':warning: {{{Q}[2]}}% of the functions are hard to maintain, refactoring necessary.')",
+        "ok_otherwise": "implies({Q}[3] <= 0 and {Q}[2] <= 20, out_arg(-1, 0) == f':white_check_mark: {{{Q}[0] + {Q}[1]}}% of {what} are maintainable, no refactoring necessary.')",
+    }
+    reg.contract(
+        FT + "print_summary", params={"console": "ext:Console", "report": "Report"}, returns="None",
+        ensures={k: v.format(Q=_Q, what="lines of code") for k, v in verdict.items()},
+        props=("C19",),
+    )
+    md = {k: v.format(Q=_Q, what="the functions").replace("out_arg(-1, 0)", "out_arg(-2, 0)") for k, v in verdict.items()}
+    md["row_shows_the_three_percentages"] = (f"out_arg(3, 0) == f'| {{{_Q}[0] + {_Q}[1]}}% | {{{_Q}[2]}}% | {{{_Q}[3]}}% |'")
+    reg.contract(FM + "print_summary", params={"console": "ext:Console", "report": "Report"}, returns="None", ensures=md,
+                 props=("C19",))
+    reg.contract(
+        "codelimit.common.SummaryTable:SummaryTable.__init__", params={"report": "Report"}, returns="None",
+        ensures={
+            "cells": f"out_method(-1) == 'add_row' and str(out_arg(-1, 0)) == f'{{{_Q}[0] + {_Q}[1]:n}}%' and "
+                     f"str(out_arg(-1, 1)) == f'{{{_Q}[2]:n}}%' and str(out_arg(-1, 2)) == f'{{{_Q}[3]:n}}%'",
+        },
+        props=("C19",),
+    )
+
+
+_install_base = install
+
+
+def install(reg):
+    _install_base(reg)
+    install_c19(reg)
